@@ -13,7 +13,7 @@ func init() {
 		Title: "Modules behave as textual inclusion with namespacing",
 		Decided: "narrowly, the structural skeleton of module compilation: compileModule brackets the module with scope.depth++ / a deferred depth-- that also truncates the variables the module declared, and for an aliased import a deferred pass prefixes `alias::` onto exactly the functions appended since entry — both deferred closures capture their lengths at registration, before the module's imports and definitions are compiled (R-C18-modscope); a module's own imports are compiled before its definitions (R-C18-order); " +
 			"an aliased import must compile the module's bodies with the importer's own names out of sight — today nothing restricts the lookup, which is a genuine defect recorded as a known finding (R-C18-isolation); a data import binds both `$d` and `$d::d` to the loaded value (R-C18-dataimport); modulemeta's `defs` are sorted by a total (name, arity) comparator and `deps` keep import order (R-C18-meta); ~/.jq auto-inclusion loads only regular files named .jq from the search list (R-C18-initmodules); no loader ⇒ an error, partial loaders ⇒ errors (R-C19-nilguard, R-C08-dispatch).",
-		NotCovered: "name visibility in general (run-time contents of the compiler's symbol tables per module tree); search order of lookupModule (the order and arguments of two os.Stat probes are the property — checking them would be matching a source fragment); resolution of relative `search` metadata; equality of include with textual insertion.",
+		NotCovered: "name visibility in general (run-time contents of the compiler's symbol tables per module tree); search order of lookupModule beyond the shape of its two candidates (R-C18-candidates checks that the second is Join(dir, name, Base(name)+ext) after the first, which the property states; the os.Stat probes themselves are not examined); resolution of relative `search` metadata; equality of include with textual insertion.",
 	})
 	reg(&Rule{ID: "R-C18-modscope", Props: []string{"C18"}, Floor: 3,
 		Doc: "compileModule: depth++ paired with a deferred depth-- and variable truncation; alias prefixing deferred over funcs[l:]; both lengths captured at defer registration, before the compile loops",
